@@ -179,7 +179,25 @@ def gen_config(rng, allbits=False, modelled_only=False):
         if 'field_python_type' not in c and rng.random() < 0.3:
             c['field_python_type'] = 'string'          # the documented explicit spelling of the default type
         cfg[str(b)] = c
-    return cfg
+    return reorder_keys(rng, cfg)
+
+
+def reorder_keys(rng, cfg):
+    """a configuration's keys need not be listed in ascending order (a JSON file written with sorted string keys lists
+    '10' before '2'; an entry added later sits last): nothing may depend on the order of the dictionary"""
+    r = rng.random()
+    if r < 0.55:
+        return cfg
+    ks = list(cfg)
+    if r < 0.7:
+        ks.sort()                     # string order
+    elif r < 0.8:
+        ks.reverse()
+    elif r < 0.9 and len(ks) > 1:
+        ks.append(ks.pop(rng.randrange(len(ks) - 1)))      # one entry "added later"
+    else:
+        rng.shuffle(ks)
+    return {k: cfg[k] for k in ks}
 
 
 # ---------------------------------------------------------------- values
@@ -426,13 +444,19 @@ def ref_de43(s, pattern):
 SAME_WIDTH = {6: ['%y%m%d', '%d%m%y', '%m%d%y', '%H%M%S'], 4: ['%m%d', '%d%m', '%H%M', '%M%S'], 8: ['%Y%m%d', '%d%m%Y']}
 
 
+CONFIG_KEYS = ('field_name', 'field_type', 'field_length', 'field_python_type', 'field_date_format', 'field_processor', 'field_processor_config')
+
+
 def collision_cases(rng, n):
     """Cases in which the SAME raw text is read under different configurations: datetime elements of equal width but
     different formats carrying identical digits, an int and a text element with those digits too, and - `warm` - further
     calls made BEFORE the case's own call in the same process: the same digits under another format / codec, or another
     configuration presented in the SAME dict object (edited in place, `how: inplace`) or in a short-lived copy that is
     dropped before the next one is made (`how: fresh`: CPython then tends to hand out the same id()).  Anything keyed by
-    the raw text or by the identity of the configuration (a memo table, a shared buffer) shows up here; the model has no
+    the raw text or by the identity of the configuration (a memo table, a shared buffer) shows up here; `how: derive` /
+    `derive-inplace`: the case's configuration is DERIVED from the one the warm call used - a deep copy of it (or the very
+    object) whose per-element dictionaries are edited key by key, as a caller adapting a configuration does - so anything
+    the library left behind inside a configuration it was given comes along; the model has no
     state, so it is the reference.  Each case: cfg, codec, hex, msg (protocol text), warm (list of such, with `how`)."""
     out = []
     for i in range(n):
@@ -462,7 +486,7 @@ def collision_cases(rng, n):
                 m['PDS%04d' % rng.randrange(10000)] = digits
                 if rng.random() < 0.5:
                     m['PDS%04d' % rng.randrange(10000)] = rand_text(rng, codec, rng.choice([1, 30, 600, 900]))
-            return cfg, m
+            return reorder_keys(rng, cfg), m
         cfg, m = mk(rng.sample(fmts, rng.randint(2, len(fmts))), rng.random() < 0.6)
         case = {'cfg': cfg, 'codec': codec, 'hex': rng.random() < 0.5, 'msg': dict_text(m)}
         if i % 3:
@@ -479,7 +503,7 @@ def collision_cases(rng, n):
                 else:
                     wcfg, wm = mk(rng.sample(fmts, rng.randint(1, len(fmts))), rng.random() < 0.7)
                 warm.append({'cfg': wcfg, 'codec': rng.choice([codec, rng.choice(CODECS)]), 'hex': rng.random() < 0.5, 'msg': dict_text(wm),
-                             'how': ['plain', 'inplace', 'fresh'][i % 3 + (_ % 2) if i % 3 + (_ % 2) < 3 else 0]})
+                             'how': ['plain', 'inplace', 'fresh', 'derive', 'derive-inplace'][(i // 3 + _) % 5]})
             case['warm'] = warm
         out.append(case)
     return out
@@ -491,6 +515,7 @@ def run_warm(case, call):
     import copy
     import gc
     shared = None
+    last = None
     for w in case.get('warm', ()):
         how = w.get('how', 'plain')
         if how == 'inplace':
@@ -501,15 +526,31 @@ def run_warm(case, call):
             c = shared
         elif how == 'fresh':
             c = copy.deepcopy(w['cfg'])
+        elif how.startswith('derive'):
+            c = copy.deepcopy(w['cfg'])
         else:
             c = w['cfg']
         try:
             call(w, c)
         except Exception:
             pass
+        last = (how, c)
         if how == 'fresh':
             del c
             gc.collect()
+    if last is not None and last[0].startswith('derive') and case.get('cfg') is not None:
+        tgt = copy.deepcopy(case['cfg'])
+        c = last[1] if last[0] == 'derive-inplace' else copy.deepcopy(last[1])
+        for k in [k for k in c if k not in tgt]:
+            del c[k]
+        for k, new in tgt.items():
+            if isinstance(c.get(k), dict):
+                for kk in [kk for kk in c[k] if kk in CONFIG_KEYS and kk not in new]:
+                    del c[k][kk]
+                c[k].update(new)                # keys the caller knows about; anything else stays where it was
+            else:
+                c[k] = new
+        return {k: c[k] for k in tgt}           # listed in the order of the case's configuration
     if shared is not None and case.get('cfg') is not None:
         shared.clear()
         shared.update(copy.deepcopy(case['cfg']))
